@@ -280,7 +280,9 @@ Import Model.Mux Model.MuxSpec Model.BridgeMuxSpec Proofs.BridgeMux.
       acknowledge cycle t0+R+1;
    3. in that cycle its w_data is the concatenation of lanes gf .. ge-1 of dat_w clipped to the
       register width (`assemble`, read bit by bit by C05_assemble_is_concatenation; closed form below);
-   4. ack = 0 on [t0, t0+R] and 1 in cycle t0+R+1. *)
+   4. ack = 0 on [t0, t0+R] and 1 in cycle t0+R+1;
+   5. the bridge half is idle again at t0+R+2 (it is idle out of reset, C10_idle_after_reset through
+      C10_composite_decomposes), so the theorem applies again to a back-to-back or later transfer. *)
 Theorem C10_atomic_write_through_mux : forall bc mc tr t0 k r,
   wf bc -> wf_cfg mc -> fits bc mc ->
   idle (fst (cstate_at bc mc tr t0)) -> req_held (wb_trace tr) t0 (nratio bc) ->
@@ -299,7 +301,8 @@ Theorem C10_atomic_write_through_mux : forall bc mc tr t0 k r,
     Some (assemble (c_dw mc) (r_width r) (fun j => lane bc (Z.of_nat gf + j) (x_dat_w x))
                    (Z.to_nat (reg_len r))) /\
   (forall j, (j <= R)%nat -> o_ack (wb_out_at bc mc tr (t0 + j)) = false) /\
-  o_ack (wb_out_at bc mc tr (t0 + R + 1)) = true.
+  o_ack (wb_out_at bc mc tr (t0 + R + 1)) = true /\
+  idle (fst (cstate_at bc mc tr (t0 + R + 2))).
 Proof. exact atomic_write_through_mux. Qed.
 Print Assumptions C10_atomic_write_through_mux.
 
@@ -319,7 +322,9 @@ Print Assumptions C10_lanes_concat.
    3. in the acknowledge cycle, lane i of dat_r, for EVERY granule i of the register, is word i-gf of
       the ONE value the register presented in cycle t0+gf, whatever it presents in any other cycle
       (`word dw width j v` = bits [j*dw, min(width, (j+1)*dw)) of v);
-   4. ack = 0 on [t0, t0+R] and 1 in cycle t0+R+1. *)
+   4. ack = 0 on [t0, t0+R] and 1 in cycle t0+R+1;
+   5. the bridge half is idle again at t0+R+2 (it is idle out of reset, C10_idle_after_reset through
+      C10_composite_decomposes), so the theorem applies again to a back-to-back or later transfer. *)
 Theorem C10_atomic_read_through_mux : forall bc mc tr t0 k r,
   wf bc -> wf_cfg mc -> fits bc mc ->
   idle (fst (cstate_at bc mc tr t0)) -> req_held (wb_trace tr) t0 (nratio bc) ->
@@ -339,7 +344,8 @@ Theorem C10_atomic_read_through_mux : forall bc mc tr t0 k r,
      word (c_dw mc) (r_width r) (Z.of_nat i - Z.of_nat gf)
           (trunc (r_width r) (nth k (x_rvals (tr (t0 + gf)%nat)) 0))) /\
   (forall j, (j <= R)%nat -> o_ack (wb_out_at bc mc tr (t0 + j)) = false) /\
-  o_ack (wb_out_at bc mc tr (t0 + R + 1)) = true.
+  o_ack (wb_out_at bc mc tr (t0 + R + 1)) = true /\
+  idle (fst (cstate_at bc mc tr (t0 + R + 2))).
 Proof. exact atomic_read_through_mux. Qed.
 Print Assumptions C10_atomic_read_through_mux.
 
@@ -359,7 +365,8 @@ Theorem C10_atomic_write_whole_word : forall bc mc tr t0 k r,
      nth_error (o_wstb (elem_out_at bc mc tr (t0 + j))) k = Some (j =? R)%nat) /\
   nth_error (o_wdata (elem_out_at bc mc tr (t0 + R))) k = Some (trunc (r_width r) (x_dat_w x)) /\
   (forall j, (j <= R)%nat -> o_ack (wb_out_at bc mc tr (t0 + j)) = false) /\
-  o_ack (wb_out_at bc mc tr (t0 + R + 1)) = true.
+  o_ack (wb_out_at bc mc tr (t0 + R + 1)) = true /\
+  idle (fst (cstate_at bc mc tr (t0 + R + 2))).
 Proof. exact atomic_write_whole_word. Qed.
 Print Assumptions C10_atomic_write_whole_word.
 
@@ -377,7 +384,8 @@ Theorem C10_atomic_read_whole_word : forall bc mc tr t0 k r,
      lane bc (Z.of_nat i) (o_dat_r (wb_out_at bc mc tr (t0 + R + 1))) =
      word (c_dw mc) (r_width r) (Z.of_nat i) (trunc (r_width r) (nth k (x_rvals x) 0))) /\
   (forall j, (j <= R)%nat -> o_ack (wb_out_at bc mc tr (t0 + j)) = false) /\
-  o_ack (wb_out_at bc mc tr (t0 + R + 1)) = true.
+  o_ack (wb_out_at bc mc tr (t0 + R + 1)) = true /\
+  idle (fst (cstate_at bc mc tr (t0 + R + 2))).
 Proof. exact atomic_read_whole_word. Qed.
 Print Assumptions C10_atomic_read_whole_word.
 
@@ -397,6 +405,10 @@ Proof.
   split; [apply wb_out_is_out_at|]. split; [reflexivity|]. split; [apply mtr_eq|reflexivity].
 Qed.
 Print Assumptions C10_composite_decomposes.
+
+Theorem C10_composite_idle_after_reset : forall bc mc tr, idle (fst (cstate_at bc mc tr 0)).
+Proof. intros bc mc tr. split; reflexivity. Qed.
+Print Assumptions C10_composite_idle_after_reset.
 
 (* finite runs of the composite (used in the Example below) are prefixes of the trace semantics *)
 Theorem C10_crun_is_trace : forall bc mc xs d t, (t < length xs)%nat ->
